@@ -76,7 +76,21 @@ def gen_plan(rng, tier, index=0):
                 q["nx"] = max(4, p["nx"] + r.choice([-1, 1, 3]))
                 q["ncol"] = min(q["ncol"], q["nx"])
             decoys.append({"what": what, "params": q, "seed": r.randrange(1000), "rows": r.randint(0, 5)})
-        return {"mode": "stationary", "params": p, "decoys": decoys, "init_seed": rng.randrange(2 ** 31), "steps": None}
+        return {"mode": "stationary", "params": p, "decoys": decoys, "init_seed": rng.randrange(2 ** 31), "numba_threads": rng.randint(1, 4),
+                "steps": None}
+    if index % 25 == 7:
+        # an outer scale far beyond the screen: the parameter region where the covariance matrix is close to singular.
+        # Either the constructor refuses the parameters (fine) or the screen must stay finite for a long run of rows
+        r = rng.sub("extreme")
+        kind = r.choice(["VK", "KOL"])
+        px = round(r.logu(0.01, 0.3), 4)
+        p = {"nx": r.choice([5, 8, 9, 12, 16, 17]), "px": px, "r0": round(r.logu(0.05, 1.0), 4), "L0": round(px * r.logu(1e3, 1e7), 3)}
+        if kind == "VK":
+            p["ncol"] = r.randint(1, 4)
+        else:
+            p["slf"] = r.randint(1, 4)
+        return {"mode": "extreme", "kind": kind, "params": p, "seed": r.randrange(2 ** 31), "rows": 1200, "numba_threads": rng.randint(1, 4),
+                "steps": None}
     n_scr = rng.weighted([(1, 5), (2, 3), (3, 1)])
     scr = []
     for i in range(n_scr):
@@ -88,9 +102,9 @@ def gen_plan(rng, tier, index=0):
     r = rng.sub("hist")
     length = r.weighted([(r.randint(5, 20), 5), (r.randint(20, 60), 3), (r.randint(100, 200), 1)]
                         + ([(r.randint(400, 1500), 0.5)] if tier == "thorough" else []))
-    mix = r.choice([{"add_row": 6, "read": 2, "print": 1, "hold": 0.5, "noise": 1},
-                    {"add_row": 3, "read": 3, "print": 3, "hold": 1, "noise": 2},
-                    {"add_row": 10, "read": 0.5, "print": 0.2, "hold": 0.2, "noise": 0.2}])
+    mix = r.choice([{"add_row": 6, "read": 2, "print": 1, "hold": 0.5, "noise": 1, "clone": 0.4},
+                    {"add_row": 3, "read": 3, "print": 3, "hold": 1, "noise": 2, "clone": 0.6},
+                    {"add_row": 10, "read": 0.5, "print": 0.2, "hold": 0.2, "noise": 0.2, "clone": 0.2}])
     steps = []
     for _ in range(length):
         op = r.weighted(list(mix.items()))
@@ -101,6 +115,9 @@ def gen_plan(rng, tier, index=0):
             steps.append({"op": "read", "s": s, "how": r.choice(READ_KINDS)})
         elif op == "print":
             steps.append({"op": "print", "s": s, "how": r.choice(PRINT_KINDS)})
+        elif op == "clone":
+            # checkpoint: from here on the caller works with a copy of the screen (pickle round trip / deepcopy)
+            steps.append({"op": "clone", "s": s, "how": r.choice(["pickle", "deepcopy"])})
         elif op == "hold":
             steps.append({"op": r.choice(["hold", "check_hold"]), "s": s})
         else:
@@ -167,9 +184,61 @@ def _do_print(s, how):
     raise ValueError(how)
 
 
+def execute_extreme(plan, keep_log=False):
+    import numpy
+    res = core.Result()
+    log = core.EventLog(keep_log)
+    screens.warm()
+    seams.reset_ambient(0, plan.get("numba_threads", 1))
+    p, kind = plan["params"], plan["kind"]
+    ratio = p["L0"] / p["px"]
+    cls = ":outer-scale>=1e4-pixels" if ratio >= 1e4 else ""
+    beyond = ratio >= 1e5          # far beyond the point where the unchanged constructor gives up (it accepts ~1 in 30000 there)
+    if beyond:
+        res.count("extreme.beyond.configs")
+    try:
+        with numpy.errstate(all="ignore"):
+            s = screens.construct_infinite(kind, p, plan["seed"])
+    except Exception as e:
+        res.count("extreme.constructor_refused")
+        log.add("extreme", "refused", type(e).__name__)
+        res.digest = log.digest()
+        res.sched_digest = log.full_digest()
+        return res
+    res.count("extreme.constructed.%s" % kind)
+    if beyond:
+        res.count("extreme.beyond.accepted")
+    N = p["nx"]
+    prev = numpy.array(s.scrn, copy=True)
+    with numpy.errstate(all="ignore"):
+        for i in range(plan["rows"]):
+            cur = s.add_row()
+            res.steps += 1
+            if cur.shape != (N, N):
+                res.violate("shape", "C05:exposed-shape-wrong:%s" % kind, "shape %s after %d rows (%s)" % (cur.shape, i + 1, p), i)
+                break
+            if not numpy.isfinite(cur).all():
+                res.violate("finite", "C05:non-finite-values:%s%s" % (kind, cls),
+                            "%s screen %s (L0/pixel = %.3g): non-finite values after %d rows" % (kind, p, p["L0"] / p["px"], i + 1), i)
+                if beyond:
+                    res.count("extreme.beyond.diverged")
+                break
+            if screens.abytes(cur[1:]) != screens.abytes(prev[:-1]):
+                res.violate("shift", "C05:not-a-one-row-shift:%s" % kind, "after add_row #%d (%s)" % (i + 1, p), i)
+                break
+            prev = numpy.array(cur, copy=True)
+    res.sig("extreme", kind, N, int(numpy.log10(ratio)))
+    log.add("extreme", kind, core.harr(prev), res.steps)
+    res.digest = log.digest()
+    res.sched_digest = log.full_digest()
+    return res
+
+
 def execute(plan, keep_log=False):
     if plan.get("mode") == "stationary":
         return execute_stationary(plan, keep_log)
+    if plan.get("mode") == "extreme":
+        return execute_extreme(plan, keep_log)
     import numpy
     res = core.Result()
     log = core.EventLog(keep_log)
@@ -262,7 +331,7 @@ def execute(plan, keep_log=False):
             s = prim[i]
             sp = specs[i]
             N = sp["params"]["nx"]
-            canon.append("%s:%s" % (op if op != "read" and op != "print" else op[0] + ":" + st["how"], cname(i)))
+            canon.append("%s:%s" % (op if op not in ("read", "print") else op[0] + ":" + st["how"], cname(i)))
             if op == "add_row":
                 try:
                     ret = s.add_row()
@@ -314,6 +383,31 @@ def execute(plan, keep_log=False):
                 res.violate("raised", "C05:%s-raised:%s:%s" % (op, sp["kind"], type(e).__name__),
                             "screen %d: %s(%s) raised %s: %s" % (i, op, st["how"], type(e).__name__, str(e)[:200]), si)
                 log.add(si, op + "-raised", i, type(e).__name__)
+                continue
+            if op == "clone":
+                import copy
+                import pickle
+                try:
+                    c2 = pickle.loads(pickle.dumps(s)) if st.get("how") == "pickle" else copy.deepcopy(s)
+                    c2.scrn
+                except Exception as e:
+                    res.violate("raised", "C05:clone-raised:%s:%s" % (sp["kind"], type(e).__name__),
+                                "screen %d: %s of the screen raised %s: %s" % (i, st.get("how"), type(e).__name__, str(e)[:150]), si)
+                    log.add(si, "clone-raised", i)
+                    continue
+                res.count("op.clone")
+                log.add(si, "clone", i, st.get("how"))
+                if screens.abytes(c2.scrn) != screens.abytes(model[i]):
+                    res.violate("clone", "C05:copy-of-screen-differs:%s:%s" % (sp["kind"], st.get("how")),
+                                "screen %d (%s %s): a %s of the screen exposes shape %s / other values than the original %s"
+                                % (i, sp["kind"], sp["params"], st.get("how"), c2.scrn.shape, model[i].shape), si)
+                else:
+                    # the copy carries the whole state (incl. the random stream): it continues exactly like the original would
+                    prim[i] = c2
+                    s = c2
+                    if gens[i] is not None:
+                        gens[i] = None
+                check_twin(i, si, "clone")
                 continue
             if op == "read":
                 res.count("op.read")
@@ -406,7 +500,7 @@ def execute_stationary(plan, keep_log=False):
     ips = mods["ips"]
     p = plan["params"]
     nx, ncol = p["nx"], p["ncol"]
-    seams.reset_ambient(0)
+    seams.reset_ambient(0, plan.get("numba_threads", 1))
     tag = "nx%d-ncol%d" % (nx, ncol)
 
     def build(script, seed=0):
@@ -530,6 +624,32 @@ def execute_stationary(plan, keep_log=False):
     res.digest = log.digest()
     res.sched_digest = log.full_digest()
     return res
+
+
+def extra_stage(tier, base_seed, farm, stats=None, runs=None):
+    """aggregate oracle over the far-beyond region (L0 >= 1e5 pixels). There the unchanged constructor refuses the
+    parameters (it lets about 1 in 30000 through, which then diverges: part of the open known finding). A tree on which
+    more than a few per cent of these parameter sets are accepted AND diverge fails for inputs the finding does not
+    describe; a tree that accepts them and stays finite is fine."""
+    stats = stats or {}
+    n, acc, div = stats.get("extreme.beyond.configs", 0), stats.get("extreme.beyond.accepted", 0), stats.get("extreme.beyond.diverged", 0)
+    out = {"coverage": {"far_beyond_region": {"parameter_sets": n, "accepted_by_constructor": acc, "accepted_and_diverged": div}}, "violations": []}
+    if div > max(3, 0.05 * n):
+        ex = None
+        for r in runs or []:
+            for v in r.get("violations", []):
+                if "outer-scale>=1e4" in v["sig"] and r.get("plan", {}).get("mode") == "extreme" and \
+                        r["plan"]["params"]["L0"] / r["plan"]["params"]["px"] >= 1e5:
+                    ex = (r["index"], r["plan"])
+                    break
+            if ex:
+                break
+        out["violations"].append({
+            "kind": "finite", "sig": "C05:non-finite-values:parameter-sets-beyond-1e5-pixels-accepted-and-diverging", "stage": "simulation",
+            "detail": "%d of %d parameter sets with an outer scale >= 1e5 pixels were accepted by the constructor and diverged to inf/nan "
+                      "(the open known finding covers isolated cases, about 1 in 30000)" % (div, n),
+            "index": ex[0] if ex else -1, "no_shrink": True, "plan": ex[1] if ex else None})
+    return out
 
 
 def simplify(plan):
